@@ -144,20 +144,33 @@ theorem finishCall_inv (r : CS × CErr) (h : CInv r.1) : CInv (finishCall r).1 :
   · exact h
   · exact closeNow_inv r.1 h
 
-theorem writeInner_inv (capOf : Nat → Nat) (maxWB : Nat) (s : CS) (n : Nat) (k : KAns) (h : CInv s) :
-    CInv (writeInner capOf maxWB s n k).1 := by
-  unfold writeInner
-  have hlog : CInv { s with heap := s.heap.log (.write none) } := by
+theorem directLog_inv (s : CS) (ks : List KAns) (h : CInv s) : CInv { s with heap := (directLog s.heap ks).1 } := by
+  have hlog : ∀ s : CS, CInv s → CInv { s with heap := s.heap.log (.write none) } := by
+    intro s h
     unfold CInv at *
     exact ⟨by simpa using h.ok, by simpa using h.fresh, h.cl, by simpa using h.bl, h.nd, h.dj⟩
+  induction ks generalizing s with
+  | nil => exact hlog s h
+  | cons k t ih =>
+    cases k with
+    | eintr => exact ih { s with heap := s.heap.log (.write none) } (hlog s h)
+    | wrote n => exact hlog s h
+    | eagain => exact hlog s h
+    | fail => exact hlog s h
+
+theorem writeInner_inv (capOf : Nat → Nat) (maxWB : Nat) (s : CS) (n : Nat) (ks : List KAns) (h : CInv s) :
+    CInv (writeInner capOf maxWB s n ks).1 := by
+  unfold writeInner
+  have hlog := directLog_inv s ks h
+  dsimp only
   (repeat' split) <;> first | exact h | exact hlog | exact enqueue_inv capOf _ _ hlog | exact enqueue_inv capOf _ _ h
 
-theorem write_inv (capOf : Nat → Nat) (maxWB : Nat) (s : CS) (n : Nat) (k : KAns) (h : CInv s) :
-    CInv (write capOf maxWB s n k).1 := by
+theorem write_inv (capOf : Nat → Nat) (maxWB : Nat) (s : CS) (n : Nat) (ks : List KAns) (h : CInv s) :
+    CInv (write capOf maxWB s n ks).1 := by
   unfold write
   split
   · exact h
-  · exact finishCall_inv _ (writeInner_inv capOf maxWB s n k h)
+  · exact finishCall_inv _ (writeInner_inv capOf maxWB s n ks h)
 
 theorem queueRest_inv (capOf : Nat → Nat) (bs : List Nat) (s : CS) (n : Nat) (h : CInv s) :
     CInv (queueRest capOf s n bs) := by
@@ -179,14 +192,14 @@ theorem writevInner_inv (capOf : Nat → Nat) (maxWB : Nat) (s : CS) (bs : List 
   dsimp only
   (repeat' split) <;> first | exact h | exact foldl_enqueue_inv capOf bs s h | exact queueRest_inv capOf bs s _ h
 
-theorem writev_inv (capOf : Nat → Nat) (maxWB : Nat) (s : CS) (bs : List Nat) (k : KAns) (h : CInv s) :
-    CInv (writev capOf maxWB s bs k).1 := by
+theorem writev_inv (capOf : Nat → Nat) (maxWB : Nat) (s : CS) (bs : List Nat) (ks : List KAns) (h : CInv s) :
+    CInv (writev capOf maxWB s bs ks).1 := by
   unfold writev
   split
   · exact h
   · split
-    · exact finishCall_inv _ (writeInner_inv capOf maxWB s _ k h)
-    · exact finishCall_inv _ (writevInner_inv capOf maxWB s bs k h)
+    · exact finishCall_inv _ (writeInner_inv capOf maxWB s _ ks h)
+    · exact finishCall_inv _ (writevInner_inv capOf maxWB s bs _ h)
 
 theorem enqueueFile_inv (s : CS) (rem : Nat) (h : CInv s) : CInv (enqueueFile s rem) := by
   unfold enqueueFile CInv at *
